@@ -160,24 +160,76 @@ Definition is_default (ft: ty) (x d: val) : bool := aval_eqb (abs ft x) (abs ft 
 Definition string_octets (v: val) : option bytes :=
   match v with VOcts b => Some b | VChars cs => Some (concat cs) | _ => None end.
 
-Fixpoint der (T: ty) (v: val) {struct T} : option bytes :=
+(* clause 9 (CER) differs from clause 10 (DER) in three places: constructed encodings use the
+   indefinite form; strings longer than 1000 octets are cut into 1000-octet primitive segments;
+   an untagged CHOICE inside a SET is placed by the smallest tag of its type (9.3) rather than by
+   the tag of the alternative chosen (10.3) *)
+Definition ctlv (cer: bool) (c: tclass) (num: N) (contents: bytes) : bytes :=
+  if cer then ident c true num ++ [128] ++ contents ++ [0; 0] else tlv c true num contents.
+
+Fixpoint segs1000 (fuel: nat) (b: bytes) : list bytes :=
+  match fuel with
+  | O => []
+  | S f => match b with [] => [] | _ => firstn 1000 b :: segs1000 f (skipn 1000 b) end
+  end.
+Definition string_tlv (cer: bool) (num: N) (b: bytes) : bytes :=
+  if (cer && Nat.ltb 1000 (length b))%bool
+  then ctlv true Univ num (concat (map (tlv Univ false 4) (segs1000 (S (length b)) b)))
+  else tlv Univ false num b.
+(* 8.6.4 / 9.2: BIT STRING segments of 1000 octets: 999 octets of bits each after the initial octet *)
+Fixpoint segs (fuel: nat) (k: nat) (b: bytes) : list bytes :=
+  match fuel with
+  | O => []
+  | S f => match b with [] => [] | _ => firstn k b :: segs f k (skipn k b) end
+  end.
+Definition bitstring_tlv (cer: bool) (bs: list bool) : bytes :=
+  let c := bitstring_contents bs in
+  if (cer && Nat.ltb 1000 (length c))%bool then
+    let unused := hd 0 c in
+    let body := tl c in
+    (* every segment has 1000 contents octets (initial octet + 999), only the last has unused bits *)
+    ctlv true Univ 3 (concat ((fix go (l: list bytes) : list bytes :=
+                                 match l with
+                                 | [] => []
+                                 | [p] => [tlv Univ false 3 (unused :: p)]
+                                 | p :: r => tlv Univ false 3 (0 :: p) :: go r
+                                 end) (segs (S (length body)) 999 body)))
+  else tlv Univ false 3 c.
+
+(* the smallest tag an encoding of the type can start with (X.690 9.3) *)
+Fixpoint min_first_tag (T: ty) : N * N :=
+  match T with
+  | TChoice alts =>
+      (fix go (l: list ty) : N * N :=
+         match l with
+         | [] => (0, 0)
+         | [a] => min_first_tag a
+         | a :: r => let x := min_first_tag a in let y := go r in if key_ltb y x then y else x
+         end) alts
+  | TImp t _ | TExp t _ => (class_no (tcls t), tnum t)
+  | TBool => (0, 1) | TInt => (0, 2) | TBits => (0, 3) | TOcts => (0, 4) | TNull => (0, 5) | TOid => (0, 6)
+  | TReal => (0, 9) | TEnum => (0, 10) | TStr n => (0, n) | TSeq _ | TSeqOf _ => (0, 16) | TSet _ | TSetOf _ => (0, 17)
+  | TAny => (0, 0)
+  end.
+
+Fixpoint canon (cer: bool) (T: ty) (v: val) {struct T} : option bytes :=
   match T, v with
   | TBool, VBool b => Some (tlv Univ false 1 [if b then 255 else 0])
   | TInt, VInt z => Some (tlv Univ false 2 (int_contents z))
   | TEnum, VInt z => Some (tlv Univ false 10 (int_contents z))
-  | TBits, VBits bs => Some (tlv Univ false 3 (bitstring_contents bs))
-  | TOcts, VOcts b => Some (tlv Univ false 4 b)
+  | TBits, VBits bs => Some (bitstring_tlv cer bs)
+  | TOcts, VOcts b => Some (string_tlv cer 4 b)
   | TNull, VNull => Some (tlv Univ false 5 [])
   | TOid, VOid a => opt_bind (oid_contents a) (fun c => Some (tlv Univ false 6 c))
   | TReal, VReal r => opt_bind (real_contents r) (fun c => Some (tlv Univ false 9 c))
-  | TStr n, _ => opt_bind (string_octets v) (fun b => Some (tlv Univ false n b))
+  | TStr n, _ => opt_bind (string_octets v) (fun b => Some (string_tlv cer n b))
   | TAny, VAny b => Some b
   | TSeqOf t, VList xs =>
-      opt_bind (opt_all ((fix go (xs: list val) := match xs with [] => [] | x :: r => der t x :: go r end) xs))
-               (fun es => Some (tlv Univ true 16 (concat es)))
+      opt_bind (opt_all ((fix go (xs: list val) := match xs with [] => [] | x :: r => canon cer t x :: go r end) xs))
+               (fun es => Some (ctlv cer Univ 16 (concat es)))
   | TSetOf t, VList xs =>
-      opt_bind (opt_all ((fix go (xs: list val) := match xs with [] => [] | x :: r => der t x :: go r end) xs))
-               (fun es => Some (tlv Univ true 17 (concat (sort_with octets_ltb es))))
+      opt_bind (opt_all ((fix go (xs: list val) := match xs with [] => [] | x :: r => canon cer t x :: go r end) xs))
+               (fun es => Some (ctlv cer Univ 17 (concat (sort_with octets_ltb es))))
   | TSeq fs, VRec vs =>
       opt_bind ((fix go (fs: list (presence * ty)) (vs: list (option val)) : option (list bytes) :=
                    match fs with
@@ -189,42 +241,49 @@ Fixpoint der (T: ty) (v: val) {struct T} : option bytes :=
                        | Req, None => None
                        | Opt, None | Def _, None => go fs' vs'
                        | Def d, Some x => if is_default ft x d then go fs' vs'
-                                          else opt_bind (der ft x) (fun e => opt_bind (go fs' vs') (fun r => Some (e :: r)))
-                       | _, Some x => opt_bind (der ft x) (fun e => opt_bind (go fs' vs') (fun r => Some (e :: r)))
+                                          else opt_bind (canon cer ft x) (fun e => opt_bind (go fs' vs') (fun r => Some (e :: r)))
+                       | _, Some x => opt_bind (canon cer ft x) (fun e => opt_bind (go fs' vs') (fun r => Some (e :: r)))
                        end
                    end) fs vs)
-               (fun es => Some (tlv Univ true 16 (concat es)))
+               (fun es => Some (ctlv cer Univ 16 (concat es)))
   | TSet fs, VRec vs =>
-      opt_bind ((fix go (fs: list (presence * ty)) (vs: list (option val)) : option (list bytes) :=
+      (* (ordering key, encoding) of every component present *)
+      opt_bind ((fix go (fs: list (presence * ty)) (vs: list (option val)) : option (list ((N * N) * bytes)) :=
                    match fs with
                    | [] => Some []
                    | (p, ft) :: fs' =>
                        let ov := match vs with x :: _ => x | [] => None end in
                        let vs' := match vs with _ :: r => r | [] => [] end in
+                       let emit (x: val) :=
+                         opt_bind (canon cer ft x) (fun e =>
+                         opt_bind (go fs' vs') (fun r =>
+                           (* 10.3 actual tag of the encoding; 9.3 smallest tag of the type *)
+                           Some (((if cer then min_first_tag ft else tag_key e), e) :: r))) in
                        match p, ov with
                        | Req, None => None
                        | Opt, None | Def _, None => go fs' vs'
-                       | Def d, Some x => if is_default ft x d then go fs' vs'
-                                          else opt_bind (der ft x) (fun e => opt_bind (go fs' vs') (fun r => Some (e :: r)))
-                       | _, Some x => opt_bind (der ft x) (fun e => opt_bind (go fs' vs') (fun r => Some (e :: r)))
+                       | Def d, Some x => if is_default ft x d then go fs' vs' else emit x
+                       | _, Some x => emit x
                        end
                    end) fs vs)
-               (* 10.3: components in the canonical order of their (actual, outermost) tags *)
-               (fun es => Some (tlv Univ true 17 (concat (sort_with (fun a b => key_ltb (tag_key a) (tag_key b)) es))))
+               (fun es => Some (ctlv cer Univ 17 (concat (map snd (sort_with (fun a b => key_ltb (fst a) (fst b)) es)))))
   | TChoice alts, VChoice i x =>
       (fix go (alts: list ty) (k: nat) : option bytes :=
          match alts, k with
-         | a :: _, O => der a x
+         | a :: _, O => canon cer a x
          | _ :: r, S k' => go r k'
          | [], _ => None
          end) alts i
-  | TImp t x, _ => opt_bind (der x v) (retag t)
+  | TImp t x, _ => opt_bind (canon cer x v) (retag t)
   | TExp t x, _ => match tcls t with
                    | Univ => None
-                   | _ => opt_bind (der x v) (fun e => Some (tlv (tcls t) true (tnum t) e))
+                   | _ => opt_bind (canon cer x v) (fun e => Some (ctlv cer (tcls t) (tnum t) e))
                    end
   | _, _ => None
   end.
+
+Definition der := canon false.
+Definition cer := canon true.
 
 (* ---------- reading any BER encoding ---------- *)
 
